@@ -380,6 +380,7 @@ def run_case(case):
     log = []
     rules = case['rules']
     reg = []                      # indices (into case['rules']) of the rules the router holds
+    hooked = False
     for idx, (segs, fl, meth) in enumerate(rules):
         text = S.render(segs, fl)
         try:
@@ -392,22 +393,20 @@ def run_case(case):
             return fail('K0.register', rule=text, method=meth, registered=[S.render(rules[j][0], rules[j][1]) for j in reg],
                         error='%s: %s' % (type(e).__name__, str(e)[:200]))
         reg.append(idx)
-        # lookups interleaved with registration: whatever a lookup leaves behind (e.g. a cache) must not change later answers
-        for k, (wpath, _small) in enumerate(_paths(case)):
-            if k >= 12:
-                break
-            C.observe_resolve(router, wpath, meth)
-    # a route hook on the shape of a registered rule, spelled with OTHER wildcard names: hooks must not change which route
-    # is selected nor the names and values the handler receives
-    for i in reg:
-        segs, fl, _m = rules[i]
-        if any(not S.is_lit(sg) for sg in segs):
+        if not hooked and any(not S.is_lit(sg) for sg in segs):
+            # a route hook on the shape of this rule, spelled with OTHER wildcard names: hooks must not change which route is
+            # selected nor the names and values the handler receives (installed once, right after the first wildcard rule)
+            hooked = True
             renamed = [sg if S.is_lit(sg) else [sg[0], (None if sg[1] is None else 'hk' + str(sg[1]))] + list(sg[2:]) for sg in segs]
             try:
                 app.on_route(S.render(renamed, fl), lambda p: None)
             except Exception:  # noqa - a refused hook changes nothing
                 pass
-            break
+        # lookups interleaved with registration: whatever a lookup leaves behind (e.g. a cache) must not change later answers
+        for k, (wpath, _small) in enumerate(_paths(case)):
+            if k >= 12:
+                break
+            C.observe_resolve(router, wpath, meth)
     regs = [rules[i][0] for i in reg]
     methods = [rules[i][2] for i in reg]
     toks = [S.tokens(r) for r in regs]
